@@ -3,6 +3,7 @@
 # (c) 2017-2020 Michał Górny
 # Licensed under the terms of 2-clause BSD license
 
+import errno
 import os.path
 
 from gemato.compression import (
@@ -78,6 +79,15 @@ class ManifestLoader:
             ret, diff = verify_path(path, verify_entry)
             if not ret:
                 raise ManifestMismatch(relpath, verify_entry, diff)
+
+        try:
+            os.stat(path)
+        except ValueError:
+            # embedded NUL or a character that can not be encoded for
+            # the filesystem -- no such file can possibly exist
+            raise FileNotFoundError(errno.ENOENT,
+                                    os.strerror(errno.ENOENT),
+                                    repr(path))
 
         try:
             with open_potentially_compressed_path(path, 'r',
